@@ -152,6 +152,53 @@ fn panic_message(p: &(dyn Any + Send)) -> String {
     }
 }
 
+
+// ---------------------------------------------------------------------------
+// scc: the concurrent hash map, with a scheduling point before every
+// exclusive bucket access
+// ---------------------------------------------------------------------------
+
+pub mod scc {
+    pub use ::scc::*;
+
+    /// `scc::HashMap` whose `entry_sync` is preceded by a scheduling point, so
+    /// that whatever a caller did before taking the exclusive entry (e.g. a
+    /// shared look-up of the same key) can be separated from it by another
+    /// task. Everything else is the real map.
+    pub struct HashMap<K, V, H = ::std::hash::RandomState>(
+        ::scc::HashMap<K, V, H>,
+    )
+    where
+        H: ::std::hash::BuildHasher;
+
+    impl<K, V, H> HashMap<K, V, H>
+    where
+        K: Eq + ::std::hash::Hash,
+        H: ::std::hash::BuildHasher,
+    {
+        pub fn with_hasher(build_hasher: H) -> Self {
+            Self(::scc::HashMap::with_hasher(build_hasher))
+        }
+
+        pub fn entry_sync(
+            &self,
+            key: K,
+        ) -> ::scc::hash_map::Entry<'_, K, V, H> {
+            super::point("scc_entry");
+            self.0.entry_sync(key)
+        }
+    }
+
+    impl<K, V, H> ::std::ops::Deref for HashMap<K, V, H>
+    where
+        H: ::std::hash::BuildHasher,
+    {
+        type Target = ::scc::HashMap<K, V, H>;
+
+        fn deref(&self) -> &Self::Target { &self.0 }
+    }
+}
+
 // ---------------------------------------------------------------------------
 // tokio
 // ---------------------------------------------------------------------------
